@@ -37,7 +37,7 @@ def gen_program(rng):
     if rng.random() < 0.5:
         prog, skname, g = skeletons.skeleton_program(rng)
         return prog, skname
-    g = pg.ProgGen(rng, "slots")
+    g = pg.ProgGen(rng, "slots", pyrender=True)
     return g.program(), "free"
 
 
